@@ -1,4 +1,5 @@
 import MypyVerif.Proofs.Errors
+import MypyVerif.Proofs.ErrorsDisplay
 import MypyVerif.Gen.ErrorCodes
 import MypyVerif.Gen.ExitRule
 /-!
@@ -282,6 +283,54 @@ theorem ignore_can_unuse_another_ignore :
       .report { uid := 1, line := 4, column := some 0, msgId := 10, code := some ⟨2, none, true, false⟩, blocker := false,
                 sev := .error, onlyOnce := false, span := [4, 5], offset := 0, endLine := some 5, endColumn := none, parent := none },
       .genUnused 1 false ], by decide, by decide, by decide⟩
+
+/-! ## from what is stored to what is displayed -/
+
+/-- **output level**.  `ignore_exact` / `disable_code_exact` speak about what the sink stores; `file_messages`
+    then sorts and removes duplicates.  If the visible infos stored for a file shrink by a deletion `p` that is
+    key-closed (infos that show the same severity and text on the same line are deleted together) and
+    parent-closed (a kept attached note keeps its parent), and those infos share one import context and carry no
+    priorities (no code-link notes), then what `file_messages` displays shrinks by exactly that deletion:
+    nothing else appears, disappears or changes its place. -/
+theorem displayed_deletion_exact (d d' : Dyn) (path : FileId) (p : Info → Bool)
+    (hdel : (fileInfos d' path).filter (fun i => !i.hidden) = ((fileInfos d path).filter (fun i => !i.hidden)).filter p)
+    (hctx : ∀ a ∈ fileInfos d path, ∀ b ∈ fileInfos d path, a.importCtx = b.importCtx)
+    (hprio : ∀ a ∈ fileInfos d path, a.priority = 0)
+    (hK : ∀ x ∈ fileInfos d path, ∀ y ∈ fileInfos d path, x.parent = none → y.parent = none → dkey x = dkey y → p x = p y)
+    (hP : ∀ x ∈ fileInfos d path, p x = true → ∀ u, x.parent = some u → ∀ y ∈ fileInfos d path, y.uid = u → p y = true) :
+    fileMessages d' path = ((displayed d path).filter p).map render := by
+  have hsub : ∀ a, a ∈ (fileInfos d path).filter (fun i => !i.hidden) → a ∈ fileInfos d path :=
+    fun a ha => (List.mem_filter.1 ha).1
+  rw [fileMessages_eq_displayed]
+  unfold displayed
+  rw [hdel, displayed_filter _ p (fun a ha b hb => hctx a (hsub a ha) b (hsub b hb)) (fun a ha => hprio a (hsub a ha))
+    (fun x hx y hy => hK x (hsub x hx) y (hsub y hy)) (fun x hx hpx u hu y hy => hP x (hsub x hx) hpx u hu y (hsub y hy))]
+
+-- non-vacuity: e1 + attached note on line 3 (reported after e2, so sorting matters), e2 twice on line 5
+-- (de-duplication matters); deleting line 3 satisfies the hypotheses and leaves exactly e2
+example :
+    let mk : Nat → Int → Sev → Nat → Option Nat → Info := fun uid line sev m par =>
+      { uid := uid, importCtx := 0, line := line, column := 0, endLine := line, endColumn := 1, sev := sev,
+        msg := .user m 0, code := none, blocker := false, onlyOnce := false, span := [line], priority := 0,
+        hidden := false, parent := par }
+    let l := [mk 2 5 .error 11 none, mk 1 3 .error 10 none, mk 3 3 .note 12 (some 1), mk 4 5 .error 11 none]
+    let p : Info → Bool := fun i => i.line != 3
+    (removeDuplicates (sortMessages l)).map (·.uid) = [1, 3, 2] ∧
+    (removeDuplicates (sortMessages (l.filter p))).map (·.uid) = [2] ∧
+    (∀ x ∈ l, ∀ y ∈ l, x.parent = none → y.parent = none → dkey x = dkey y → p x = p y) ∧
+    (∀ x ∈ l, p x = true → ∀ u, x.parent = some u → ∀ y ∈ l, y.uid = u → p y = true) := by decide
+
+/-- the key-closedness hypothesis is needed: two infos that display identically on a line but only one of which
+    is deleted (different origin spans) — the survivor, which used to be hidden as a duplicate, now shows up with
+    its own column -/
+theorem displayed_deletion_needs_key_closed :
+    ∃ (l : List Info) (p : Info → Bool),
+      (removeDuplicates (sortMessages (l.filter p))) ≠ (removeDuplicates (sortMessages l)).filter p := by
+  refine ⟨[{ uid := 1, importCtx := 0, line := 3, column := 0, endLine := 3, endColumn := 1, sev := .error, msg := .user 10 0,
+             code := none, blocker := false, onlyOnce := false, span := [3, 4], priority := 0, hidden := false, parent := none },
+           { uid := 2, importCtx := 0, line := 3, column := 7, endLine := 3, endColumn := 8, sev := .error, msg := .user 10 0,
+             code := none, blocker := false, onlyOnce := false, span := [3], priority := 0, hidden := false, parent := none }],
+          (fun i => i.uid != 1), by decide⟩
 
 /-! ## disabling a code is exact -/
 
